@@ -500,6 +500,102 @@ theorem C04.linear_flag_complete {K : Type} [Field K] [DecidableEq K] (R : K →
       | sub => simp [linOf] at hl
       | rsub => simp [linOf] at hl
 
+/-- `build_merged`: every object the dispatch builds — for every expression, every depth,
+every scalar — is in MERGED NORMAL FORM: nowhere in its class tree is an
+`Operator/FunctionalLeftScalarMult` applied directly to a left scalar multiplication, nor a
+right one to a right one (`Impl.merged`, an executable check the driver runs on every case
+and the harness compares with the real class tree).  This is what the
+`isinstance(operator, OwnClass)` shortcut of the two constructors, `OperatorRightScalarMult.
+__mul__`, the zero shortcuts and the linear `A*a ↦ a*A` rewriting achieve together;
+unconditional (no leaf hypotheses). -/
+theorem C04.build_merged {K : Type} [Field K] [DecidableEq K]
+    (env : Nat → Vec K → Vec K) (e : Expr K) :
+    ∀ i, build env e = some i → i.merged = true := by
+  induction e with
+  | leaf l => intro i h; simp only [build, Option.some.injEq] at h; subst h; rfl
+  | neg a ih =>
+    intro i h
+    simp only [build, Option.map_eq_some_iff] at h
+    obtain ⟨a', ha', rfl⟩ := h
+    exact merged_opRMulScal _ _ (ih a' ha')
+  | pow a n ih =>
+    intro i h
+    simp only [build, Option.bind_eq_some_iff] at h
+    obtain ⟨a', ha', h⟩ := h
+    have := ih a' ha'
+    match n, h with
+    | 1, h => simp only [opPow, Option.some.injEq] at h; subst h; exact this
+    | k + 2, h =>
+      simp only [opPow] at h
+      split_ifs at h; cases h
+      exact merged_powAux _ _ this
+  | bin o a b iha ihb =>
+    intro i h
+    cases ha : build env a with
+    | none => simp [build, ha] at h
+    | some a' =>
+      cases hb : build env b with
+      | none => simp [build, ha, hb] at h
+      | some b' =>
+        have h1 := iha a' ha
+        have h2 := ihb b' hb
+        simp only [build, ha, hb] at h
+        cases o with
+        | add =>
+          simp only [opAdd, mkSum] at h
+          split_ifs at h <;> cases h <;> simp [Impl.merged, h1, h2]
+        | sub =>
+          have h3 := merged_opRMulScal b' (-1) h2
+          simp only [opAdd, mkSum] at h
+          split_ifs at h <;> cases h <;> simp [Impl.merged, h1, h3]
+        | mul =>
+          simp only [opMul] at h
+          split_ifs at h; cases h; simp [Impl.merged, h1, h2]
+        | pprod =>
+          simp only [mkPProd] at h
+          split_ifs at h; cases h; simp [Impl.merged, h1, h2]
+        | quot =>
+          simp only [mkQuot] at h
+          split_ifs at h; cases h; simp [Impl.merged, h1, h2]
+  | sc o a s re ih =>
+    intro i h
+    cases ha : build env a with
+    | none => simp [build, ha] at h
+    | some a' =>
+      have h1 := ih a' ha
+      have h3 := merged_opRMulScal a' (-1) h1
+      simp only [build, ha] at h
+      cases o with
+      | lmul => simp only [Option.some.injEq] at h; subst h; exact merged_opRMulScal _ _ h1
+      | rmul => simp only [Option.some.injEq] at h; subst h; exact merged_opMulScal _ _ _ _ h1
+      | div =>
+        simp only at h
+        split_ifs at h
+        simp only [Option.some.injEq] at h; subst h; exact merged_opMulScal _ _ _ _ h1
+      | add => exact merged_opAddScal h h1
+      | radd => exact merged_opAddScal h h1
+      | sub => exact merged_opAddScal h h1
+      | rsub => exact merged_opAddScal h h3
+  | vc o a v ih =>
+    intro i h
+    cases ha : build env a with
+    | none => simp [build, ha] at h
+    | some a' =>
+      have h1 := ih a' ha
+      have h3 := merged_opRMulScal a' (-1) h1
+      simp only [build, ha] at h
+      cases o with
+      | lmul =>
+        simp only [opRMulVec] at h
+        split_ifs at h <;> cases h <;> simp [Impl.merged, h1]
+      | rmul =>
+        simp only [opMulVec] at h
+        split_ifs at h; cases h; simp [Impl.merged, h1]
+      | add => simp only [opAddVec] at h; split_ifs at h; cases h; simp [Impl.merged, h1]
+      | radd => simp only [opAddVec] at h; split_ifs at h; cases h; simp [Impl.merged, h1]
+      | sub => simp only [opAddVec] at h; split_ifs at h; cases h; simp [Impl.merged, h1]
+      | rsub => simp only [opAddVec] at h; split_ifs at h; cases h; simp [Impl.merged, h3]
+
 /-! ### Translator tie: the dispatch EXTRACTED from the source is the modelled dispatch -/
 
 /-- Induction behind `buildT_eq_build` (the invariant "built Functionals have field range"
@@ -738,3 +834,12 @@ example : run envC (opRMulScal Complex.I (Impl.leaf ⟨0, .vec 3, .vec 3, true, 
     den envC (.sc .rmul ReC Complex.I false) (fun _ => 1) 0 := by
   rw [run_opRMulScal]
   simp [den, ReC, envC, run]
+
+open OdlModel.C04 in
+/-- non-vacuity: `2 * (3 * ((P * 5) * 7))` builds, the result is merged, and it is NOT the
+unmerged tree the expression spells out (one left and one right factor remain). -/
+example : ∃ i, build envQ (.sc .lmul (.sc .lmul (.sc .rmul (.sc .rmul P 5 true) 7 true) 3 true) 2 true)
+      = some i ∧ i.merged = true ∧
+      i = .lscal false (.rscal false (.leaf ⟨0, .vec 3, .vec 3, false, false⟩) (5 * 7)) (2 * 3) :=
+  ⟨_, rfl, rfl, rfl⟩
+
